@@ -2,7 +2,8 @@
 
 usage: selftest.py --patch FILE | --revert COMMIT   --props C01,C05 [--tier quick] [--keep]
 Prints one line per property: CAUGHT / MISSED / ERROR with the VIOLATION lines. Never touches /repo.
-The evidence files written by these runs describe the mutated tree: re-run the checks on the clean tree afterwards.
+Evidence and replays of these runs go to the scratch directory (VERIF_OUT), not to /verif/evidence; lean/HvsrVerif/Generated/Tables.lean is
+regenerated from the mutated tree, and again from /repo by the next ordinary run.
 """
 import argparse
 import os
@@ -22,6 +23,11 @@ def main():
     ap.add_argument("--tier", default="quick")
     ap.add_argument("--seed", default=None)
     a = ap.parse_args()
+    # one self-test at a time: each regenerates lean/HvsrVerif/Generated/Tables.lean from its own mutated tree
+    import fcntl
+    os.makedirs(os.path.join(VERIF, ".cache"), exist_ok=True)
+    lock = open(os.path.join(VERIF, ".cache", "selftest.lock"), "w")
+    fcntl.flock(lock, fcntl.LOCK_EX)
     scratch = tempfile.mkdtemp(prefix="hvsr_mut_", dir="/tmp")
     src = os.path.join(scratch, "src")
     try:
@@ -34,7 +40,7 @@ def main():
         if r.returncode != 0:
             print("PATCH-FAILED", r.stderr[:500])
             return 2
-        env = dict(os.environ, HVSRPY_SRC=src, VERIF_TIER=a.tier)
+        env = dict(os.environ, HVSRPY_SRC=src, VERIF_TIER=a.tier, VERIF_OUT=os.path.join(scratch, "out"))
         if a.seed:
             env["VERIF_SEED"] = a.seed
         rc_all = 0
